@@ -320,6 +320,32 @@ def rule_r3(rep, program: Program):
     return r
 
 
+def rule_r4(rep, program: Program):
+    """Rows of completed iterations are never touched again: every store into the per-chain output
+    arrays (also in the interrupt handler / finally clause) addresses the row of the *current*
+    iteration, sample_index + sampling_index_offset."""
+    from ..poly import Rat, eval_expr
+    from . import c13
+
+    r = rep.rule("R4", "every store into the per-chain output arrays in _sample_chain addresses the current row (sample_index + sampling_index_offset): completed rows are never overwritten", floor=1)
+    f = program.func_inlined("samplers", "_sample_chain", keep=SAMPLE_CHAIN_ANCHORS)
+    loops = [n for n in ast.walk(f.node) if isinstance(n, ast.For) and norm(n.iter) == "chain_iterator"]
+    if len(loops) != 1:
+        raise AnalysisError("_sample_chain: iteration loop over chain_iterator not found")
+    idx_name = norm(loops[0].target.elts[0]) if isinstance(loops[0].target, ast.Tuple) else norm(loops[0].target)
+    want = Rat.sym(idx_name) + Rat.sym("sampling_index_offset")
+    for st, row in c13.output_array_stores(f):
+        try:
+            idx = eval_expr(row, {})
+        except AnalysisError:
+            idx = None
+        in_loop = any(st is x for x in ast.walk(loops[0]))
+        r.inst({"store": norm(st)[:60], "row": norm(row), "inside iteration loop": in_loop})
+        if idx is None or not idx.equals(want):
+            r.violate(PROP, f"_sample_chain:output-store-index:{norm(row)[:40]}", f"`{norm(st)[:70]}` writes row `{norm(row)}`; the current row is {idx_name} + sampling_index_offset: in a later recorded stage (offset > 0) this overwrites the record of an iteration that completed before the interrupt", node=st, file=f.file)
+    return r
+
+
 def run(rep, program: Program, tier: str) -> None:
     rep.explanation = (
         "Handler-chain analysis from the iteration body to the public return: try/except/finally "
@@ -332,3 +358,4 @@ def run(rep, program: Program, tier: str) -> None:
     rep.isolate(rule_r1, rep, program, et)
     rep.isolate(rule_r2, rep, program, et)
     rep.isolate(rule_r3, rep, program)
+    rep.isolate(rule_r4, rep, program)
